@@ -23,7 +23,7 @@ Attribution.  A failing (cell, entry point, symptom) is reduced over the grid to
 persist (all single-axis resets are cells of the grid, so this is a lookup, not a re-run); the key is
 <class that owns the entry point>.<entry point>:<needed axes>:<symptom>, with transform failures whose predict agrees
 attributed to the class defining sparse_to_dense.  One key per defect and failure mode; `failing_cells` in the result
-lists up to 8 cells per key.  transform is not compared when predict already disagrees (it is a function of it), and
+lists the distinct reduced cells per key (at most 12).  transform is not compared when predict already disagrees (it is a function of it), and
 an exception identical to the one predict raised is not reported again for transform_scores / scores.
 """
 from __future__ import annotations
@@ -412,8 +412,8 @@ def grid_for(rec, failing_cells, name, make, X, data_id, what_kind="detector"):
             inp = {"kind": what_kind, "name": name, "X": X, "cell": list(minimal), "entry": entry, "symptom": symptom}
             rec.violation(key, what, f"C11.{entry}", inp)
             failing_cells.setdefault(key, [])
-            if cell_text(cell) not in failing_cells[key] and len(failing_cells[key]) < 8:
-                failing_cells[key].append(cell_text(cell))
+            if cell_text(minimal) not in failing_cells[key] and len(failing_cells[key]) < 12:
+                failing_cells[key].append(cell_text(minimal))
 
 
 def _brief(o):
@@ -469,8 +469,8 @@ def scorer_grid(rec, failing_cells, name, make, k, X, data_id):
             rec.violation(key, what, "C11.evaluate", {"kind": "scorer", "name": name, "X": X, "cell": list(minimal), "entry": "evaluate",
                                                      "symptom": symptom})
             failing_cells.setdefault(key, [])
-            if cell_text(cell) not in failing_cells[key] and len(failing_cells[key]) < 8:
-                failing_cells[key].append(cell_text(cell))
+            if cell_text(minimal) not in failing_cells[key] and len(failing_cells[key]) < 12:
+                failing_cells[key].append(cell_text(minimal))
 
 
 # ----------------------------------------------------------------------------------------------- entry points
